@@ -14,9 +14,10 @@ t_with=$(cd "$wt" && /venv/bin/python -m pytest -q -p no:cacheprovider tests 2>&
 d_with="n/a"; d_without="n/a"
 if [ -n "$demo" ]; then
   (cd "$wt" && /venv/bin/python "$(basename $demo)" >/tmp/demo_with.out 2>&1); d_with=$?
-  git -C "$wt" stash -q
+  # (no git stash: refs/stash is shared by all worktrees of a repository, concurrent users would swap changes)
+  git -C "$wt" apply -R "$dst/patch.diff"
   (cd "$wt" && /venv/bin/python "$(basename $demo)" >/tmp/demo_without.out 2>&1); d_without=$?
-  git -C "$wt" stash pop -q
+  git -C "$wt" apply "$dst/patch.diff"
 fi
 echo "tests with change : $t_with"
 echo "demo with change  : exit $d_with ($(tail -1 /tmp/demo_with.out 2>/dev/null | cut -c1-120))"
